@@ -18,6 +18,7 @@ func TestReplay(t *testing.T) {
 	if path == "" {
 		t.Skip("VERIF_REPLAY not set")
 	}
+	defer vrt.Cleanup()
 	doc, err := vrt.LoadAssignment(path)
 	if err != nil {
 		t.Fatal(err)
